@@ -97,7 +97,7 @@ impl Property for C01 {
 		tier.pick(700, 1400)
 	}
 	fn cases(&self, tier: Tier) -> u64 {
-		tier.pick(60_000, 1_500_000)
+		tier.pick(150_000, 1_500_000)
 	}
 	fn hang_is_violation(&self) -> bool {
 		true
